@@ -81,7 +81,10 @@ MoreCaps(as) ==
     <<5, <<0, 1, 0, 1, 0, 2, 0, 1, 0, 128, 0, 2>>>>, <<71, <<0, 1, 1, 128, 255, 255, 255, 0, 2, 1, 0, 0, 0, 0>>>>, <<200, <<>>>>, <<0, <<7>>>>}
 AsPool == {<<0, 1>>, <<0, 23455>>, <<0, 23456>>, <<0, 65535>>, <<1, 0>>, <<1, 4464>>, <<32768, 0>>, <<65535, 65535>>}
 HoldPool == {0, 1, 2, 3, 90, 180, 255, 256, 32768, 65535}
-IdPool == {<<10, 0, 0, 1>>, <<0, 0, 0, 1>>, <<255, 255, 255, 255>>, <<1, 2, 3, 4>>}
+\* (RFC 6286: any non-zero value; the decoding property speaks of every in-range value, so the address classes - this
+\* network, loopback, link local, multicast, reserved, broadcast - and their borders are all here)
+IdPool == {<<10, 0, 0, 1>>, <<0, 0, 0, 1>>, <<255, 255, 255, 255>>, <<1, 2, 3, 4>>, <<0, 0, 0, 0>>, <<0, 255, 255, 255>>, <<127, 0, 0, 1>>, <<169, 254, 0, 1>>,
+           <<223, 255, 255, 255>>, <<224, 0, 0, 0>>, <<224, 0, 0, 5>>, <<239, 255, 255, 255>>, <<240, 0, 0, 0>>, <<255, 255, 255, 254>>, <<128, 0, 0, 0>>}
 Op(as, hold, id, caps, pack) == [ver |-> 4, as |-> as, hold |-> hold, id |-> id, caps |-> caps, pack |-> pack]
 NeedsAs4(o) == o.as[1] # 0 => \E i \in 1..Len(o.caps) : o.caps[i][1] = 65
 Packs == {"each", "one", "split"}
@@ -95,7 +98,7 @@ OpenPool(lazy) ==
    LET K == CapKinds(<<0, 65002>>) IN
    \* AS numbers and hold times x with / without optional parameters
    {Op(a, h, <<10, 0, 0, 2>>, IF a[1] = 0 /\ nocaps THEN <<>> ELSE <<MP(1, 1), As4Cap(a)>>, "each") : a \in AsPool, h \in HoldPool, nocaps \in BOOLEAN}
-   \cup {Op(<<0, 65002>>, 90, i, <<>>, "each") : i \in IdPool}
+   \cup {Op(<<0, 65002>>, 90, i, cs, "each") : i \in IdPool, cs \in {<<>>, <<MP(1, 1), As4Cap(<<0, 65002>>)>>}}
    \* every capability alone, every ordered pair and triple, in every packaging
    \cup {Op(<<0, 65002>>, 90, <<10, 0, 0, 2>>, cs, p) : cs \in {c \in SubSeqs(K, 3) : NoRepeat(c)}, p \in Packs}
    \cup {Op(<<0, 65002>>, 90, <<10, 0, 0, 2>>, <<c>>, p) : c \in MoreCaps(<<0, 65002>>), p \in {"each"}}
